@@ -71,6 +71,12 @@ pub uninterp spec fn f32_neg_inf_spec() -> f32;
 #[verifier::external_body]
 pub fn f32_neg_inf_const() -> (r: f32) ensures r == f32_neg_inf_spec() { f32::NEG_INFINITY }
 
+// R13 / R14: `panic!(..)` in statement position
+#[verifier::external_body]
+pub fn reject() ensures false { panic!() }
+#[verifier::external_body]
+pub fn must_not_reject() requires false { panic!() }
+
 // shape predicates
 pub open spec fn rect2(x: Seq<Vec<f32>>, h: int, w: int) -> bool {
     x.len() == h && forall|i: int| 0 <= i < h ==> (#[trigger] x[i]).len() == w
